@@ -1420,10 +1420,16 @@ static int _handle_sm(xmpp_conn_t *const conn,
                       void *const userdata)
 {
     xmpp_stanza_t *failed_cause, *bind = NULL;
-    const char *name, *id, *previd, *resume, *cause;
+    const char *name, *id, *previd, *resume, *cause, *ns;
     unsigned long ul_h = 0;
 
     UNUSED(userdata);
+
+    /* the namespace filter also matches stanzas that merely contain an SM
+     * element: those are not the answer we are waiting for */
+    ns = xmpp_stanza_get_ns(stanza);
+    if (!ns || strcmp(ns, XMPP_NS_SM) != 0)
+        return 1;
 
     name = xmpp_stanza_get_name(stanza);
     if (!name)
